@@ -137,6 +137,9 @@ func (r *runner) snapshot() string {
 }
 
 func (r *runner) do(o opSpec) {
+	// outside a controlled execution (reference runs, completion phase) an operation includes whatever the
+	// library detached from it
+	defer vsched.WaitFree()
 	n := r.nw.Nodes[r.sc.Node]
 	switch o.Kind {
 	case "start":
@@ -302,6 +305,7 @@ func explore(sc scenario, bound, maxExec int) result {
 	}
 	ex := &vsched.Explorer{Bound: bound, MaxSteps: 10000, MaxExec: maxExec}
 	var lastKey string
+	allDelivered := !sc.NoCompletion || len(deliveredSet(sc)) == len(r.tr.msgs)
 	ex.Body = func() {
 		r.fresh()
 		for _, o := range sc.Prefix {
@@ -347,6 +351,11 @@ func explore(sc scenario, bound, maxExec int) result {
 		}
 		if o.Ends > 1 {
 			addV("result-emitted-twice", fmt.Sprintf("%d results", o.Ends), x)
+		}
+		// every message of the transcript has been handed over: the party has produced its result, or some call
+		// has returned the error that stopped it (independent of the sequential reference)
+		if allDelivered && o.Ends == 0 && o.Errs == 0 {
+			addV("silent-stop/no-result-and-no-error", "every message was delivered, no call returned an error, and the party has no result: "+lastKey, x)
 		}
 	}
 	ex.Explore()
@@ -410,6 +419,14 @@ func scenarios(tier string, seed int64) []scenario {
 			scenario{Name: name + "/garbage-vs-round-completion", Cfg: cfg, Node: node, Prefix: prefixAllBut1, Threads: [][]opSpec{{{Kind: "garbage", Msg: 0}}, {upd(r1 - 1)}}},
 			scenario{Name: name + "/duplicate-vs-new-vs-WaitingFor", Cfg: cfg, Node: node, Prefix: prefixAllBut1, Threads: [][]opSpec{{upd(0), {Kind: "waiting"}}, {upd(r1 - 1)}}},
 		)
+	}
+	// the last message round stored ahead of time, one of its messages forged: the update that completes the
+	// round before it works through two rounds and must return the failure of the final one
+	{
+		cfg := scen.EdSigning("small", 3, 1, []int{0, 1, 2}, msg, 0, seed).Cfg
+		out = append(out, scenario{Name: "eddsa-signing(3 signers)/forged-final-round-message-stored-early-vs-round-completion", Cfg: cfg, Node: 0, NoCompletion: true,
+			Prefix:  []opSpec{{Kind: "start"}, {"update", 0}, {"update", 1}, {"update", 2}, {"update", 4}, {"tampered", 5}},
+			Threads: [][]opSpec{{{"update", 3}}, {{Kind: "waiting"}}}})
 	}
 	// a round that fails to start (tampered last message of round 2) racing with the next round's message
 	{
